@@ -7,7 +7,8 @@
     the list [flows_X] of (source field, mode):
       [FIdent]     the value itself (possibly copied / re-wrapped in a fresh container);
       [FPresence]  only its presence ([x is not None], truthiness) steers a conditional whose branch carries it;
-      [FOrDefault] the value itself when truthy, the constructor's default otherwise ([p or default]);
+      [FOrDefault] the value itself when truthy, the constructor's default otherwise ([p or default]; admitted for
+                   object / container fields only);
       [FGuard]     it only steers which value is taken;
       [FDerived]   it goes through a comparison / arithmetic / formatting / slicing / projection / unknown call.
     [copy_args_lossless] (instance obligation per class) accepts a row only when the field is carried over from its own
@@ -31,13 +32,23 @@ Definition flow_carries (m : flow) : bool := match m with FIdent | FOrDefault =>
 (** ... and nothing on the way can replace it by something else. *)
 Definition flow_harmless (m : flow) : bool := match m with FIdent | FOrDefault | FPresence => true | _ => false end.
 
-Definition own_harmless (f : string) (x : string * flow) : bool := String.eqb (fst x) f && flow_harmless (snd x).
+(** For an immutable scalar field (str, int, float, bool) the falsy value ('', 0) is a value like any other, so
+    [p or default] loses it; for object and container fields falsiness is absence / emptiness, which the default
+    (None, an empty container) represents equally. *)
+Definition flow_harmless_for (k : kind) (m : flow) : bool :=
+  match m, k with
+  | FOrDefault, KImm => false
+  | _, _ => flow_harmless m
+  end.
+
+Definition own_harmless (f : string) (k : kind) (x : string * flow) : bool :=
+  String.eqb (fst x) f && flow_harmless_for k (snd x).
 
 Definition field_flow_ok (fl : flowmap) (row : string * kind * how) : bool :=
   let l := flows_of fl (cname row) in
   match snd row with
   | HShare | HDeep | HShallow | HCtx =>
-      forallb (own_harmless (cname row)) l && existsb (fun x => flow_carries (snd x)) l
+      forallb (own_harmless (cname row) (snd (fst row))) l && existsb (fun x => flow_carries (snd x)) l
   | HMissing => match l with [] => true | _ => false end   (* computed from the original, yet not carried over: lossy *)
   | HNewId => true
   end.
